@@ -1,8 +1,10 @@
 (** C09: coordinates supplied in degrees are stored as the nearest multiple of 1e-7 — for every finite
-    double except the "near-tie" class of the known finding D7 (the f64 product d*1e7 is exactly a
-    half-integer although the exact product is not). *)
-From Coq Require Import ZArith Reals Lia Lra Psatz.
-From Flocq Require Import Core BinarySingleNaN Relative.
+    double in the i32 range.  [write_lat_lon] rounds the f64 product d*1e7; that product is itself rounded,
+    so it can be exactly a half-integer although the exact product is not (the class [near_tie], defect D7
+    of the code before its repair); the code detects the exact half and lets the sign of the
+    multiplication error, obtained exactly by a fused multiply-add, decide. *)
+From Coq Require Import ZArith Reals Lia Lra Psatz Bool.
+From Flocq Require Import Core BinarySingleNaN Relative Sterbenz Mult_error.
 Require Import PM.Params PM.Float PM.FloatProofs.
 Open Scope R_scope.
 #[local] Existing Instance Hprec.
@@ -21,62 +23,205 @@ Proof.
   - cbn [Fexp]. lia.
 Qed.
 
-Theorem stored_nearest (d : f64) : is_finite d = true -> Rabs (B2R d * 10000000) <= 2147483647 -> ~ near_tie d ->
+(** rounding is monotone and fixes the half-integers in range *)
+Lemma rnd_ge_half (n : Z) (x : R) : (Z.abs n <= 2147483648)%Z -> IZR n + / 2 <= x -> IZR n + / 2 <= rnd x.
+Proof.
+  intros Hn H. rewrite <- (round_generic radix2 fx ZnearestE (IZR n + / 2)) by (try typeclasses eauto; now apply fmt_half).
+  apply round_le; [typeclasses eauto|typeclasses eauto|exact H].
+Qed.
+Lemma rnd_le_half (n : Z) (x : R) : (Z.abs n <= 2147483648)%Z -> x <= IZR n + / 2 -> rnd x <= IZR n + / 2.
+Proof.
+  intros Hn H. rewrite <- (round_generic radix2 fx ZnearestE (IZR n + / 2)) by (try typeclasses eauto; now apply fmt_half).
+  apply round_le; [typeclasses eauto|typeclasses eauto|exact H].
+Qed.
+
+(** ties go away from zero *)
+Lemma tie_away (P : R) : Rabs (IZR (ZnearestA P) - P) = / 2 ->
+  (0 < P -> IZR (ZnearestA P) = P + / 2) /\ (P < 0 -> IZR (ZnearestA P) = P - / 2) /\ P <> 0.
+Proof.
+  intros H. unfold Znearest in *.
+  pose proof (Zfloor_lb P) as L. pose proof (Zfloor_ub P) as U.
+  destruct (Rcompare_spec (P - IZR (Zfloor P)) (/ 2)) as [C|C|C].
+  - exfalso. revert H. unfold Rabs. destruct Rcase_abs; lra.
+  - assert (Hne : IZR (Zfloor P) <> P) by lra.
+    pose proof (Zceil_floor_neq P Hne) as Hc.
+    destruct (Zle_bool 0 (Zfloor P)) eqn:Z0.
+    + apply Zle_bool_imp_le in Z0. apply IZR_le in Z0. rewrite Hc, plus_IZR. repeat split; intros; lra.
+    + assert (Z1 : (Zfloor P < 0)%Z) by (destruct (Z.leb_spec 0 (Zfloor P)); [discriminate|assumption]).
+      assert (IZR (Zfloor P) <= -1) by (apply (IZR_le _ (-1)); lia). repeat split; intros; lra.
+  - assert (Hne : IZR (Zfloor P) <> P) by lra.
+    pose proof (Zceil_floor_neq P Hne) as Hc. rewrite Hc, plus_IZR in H.
+    exfalso. revert H. unfold Rabs. destruct Rcase_abs; lra.
+Qed.
+
+Lemma range_from_near (n : Z) (x : R) : Rabs (IZR n - x) <= / 2 -> Rabs x <= 2147483647 ->
+  (-2147483647 <= n <= 2147483647)%Z.
+Proof.
+  intros Hnear Hx. apply Rabs_le_inv in Hnear. apply Rabs_le_inv in Hx. split; apply le_IZR.
+  - change (IZR (-2147483647)) with (-2147483647).
+    destruct (Z_le_gt_dec (-2147483647) n) as [Hz|Hz]; [apply IZR_le in Hz; change (IZR (-2147483647)) with (-2147483647) in Hz; lra|].
+    assert (IZR n <= IZR (-2147483648)) by (apply IZR_le; lia). change (IZR (-2147483648)) with (-2147483648) in H. lra.
+  - change (IZR 2147483647) with 2147483647.
+    destruct (Z_le_gt_dec n 2147483647) as [Hz|Hz]; [apply IZR_le in Hz; change (IZR 2147483647) with 2147483647 in Hz; lra|].
+    assert (IZR 2147483648 <= IZR n) by (apply IZR_le; lia). change (IZR 2147483648) with 2147483648 in H. lra.
+Qed.
+
+Lemma cast_of_int (f : f64) (z : Z) : is_finite f = true -> B2R f = IZR z ->
+  (-2147483647 <= z <= 2147483647)%Z -> cast_i32 f = z.
+Proof.
+  intros Hf Hv Hz. apply cast_i32_finite; [exact Hf| |unfold i32_min, i32_max; lia].
+  apply eq_IZR. rewrite Btrunc_correct, Hv; [|exact Hmax]. apply round_FIX0_int. apply valid_rnd_ZR.
+Qed.
+
+Lemma step_int (r : f64) (n : Z) (up : bool) : is_finite r = true -> B2R r = IZR n -> (Z.abs n <= 2147483648)%Z ->
+  let r' := if up then Bplus mode_NE r F_one else Bminus mode_NE r F_one in
+  B2R r' = IZR (if up then n + 1 else n - 1) /\ is_finite r' = true.
+Proof.
+  intros Fr Vr Hn. destruct F_one_ok as [V1 F1]. destruct up; cbv zeta.
+  - generalize (Bplus_correct prec emax Hprec Hmax mode_NE r F_one Fr F1).
+    rewrite fexp_eq, Vr, V1. simpl round_mode. rewrite <- (plus_IZR n 1).
+    rewrite round_generic by (try typeclasses eauto; apply fmt_Zbig; lia).
+    rewrite Rlt_bool_true; [intros [A [B _]]; now split|].
+    apply big. rewrite <- abs_IZR. apply Rle_trans with (IZR 3000000000); [apply IZR_le; lia|change (IZR 3000000000) with 3000000000; lra].
+  - generalize (Bminus_correct prec emax Hprec Hmax mode_NE r F_one Fr F1).
+    rewrite fexp_eq, Vr, V1. simpl round_mode. rewrite <- (minus_IZR n 1).
+    rewrite round_generic by (try typeclasses eauto; apply fmt_Zbig; lia).
+    rewrite Rlt_bool_true; [intros [A [B _]]; now split|].
+    apply big. rewrite <- abs_IZR. apply Rle_trans with (IZR 3000000000); [apply IZR_le; lia|change (IZR 3000000000) with 3000000000; lra].
+Qed.
+
+(** the rounded product is bounded like the exact one *)
+Lemma rnd_bound (x : R) : Rabs x <= 2147483647 -> Rabs (rnd x) <= 2147483647.
+Proof.
+  intros Hx.
+  assert (E1 : rnd (IZR (-2147483647)) = IZR (-2147483647)) by (apply round_generic; [typeclasses eauto|apply fmt_Z; lia]).
+  assert (E2 : rnd (IZR 2147483647) = IZR 2147483647) by (apply round_generic; [typeclasses eauto|apply fmt_Z; lia]).
+  apply Rabs_le. apply Rabs_le_inv in Hx. destruct Hx as [Hx1 Hx2]. split.
+  - apply Rle_trans with (rnd (IZR (-2147483647))); [rewrite E1; change (IZR (-2147483647)) with (-2147483647); lra|].
+    apply round_le; [typeclasses eauto|typeclasses eauto|]. change (IZR (-2147483647)) with (-2147483647). lra.
+  - apply Rle_trans with (rnd (IZR 2147483647)); [|rewrite E2; change (IZR 2147483647) with 2147483647; lra].
+    apply round_le; [typeclasses eauto|typeclasses eauto|]. change (IZR 2147483647) with 2147483647. lra.
+Qed.
+
+Lemma big5 : forall x, x <= 5000000000 -> x < bpow radix2 emax.
+Proof.
+  intros x H. apply Rle_lt_trans with (1 := H). apply Rlt_le_trans with (bpow radix2 33).
+  - simpl bpow. change (Z.pow_pos 2 33) with 8589934592%Z. lra.
+  - apply bpow_le. lia.
+Qed.
+
+(** the error of the multiplication, computed by the fused multiply-add, is exact *)
+Lemma fma_error (d p : f64) : is_finite d = true -> is_finite p = true ->
+  let x := B2R d * 10000000 in B2R p = rnd x -> / 4 <= Rabs x -> Rabs x <= 2147483647 ->
+  B2R (Bfma mode_NE d FAC (Bopp p)) = x - rnd x /\ is_finite (Bfma mode_NE d FAC (Bopp p)) = true.
+Proof.
+  intros Fd Fp x Vp Hlo Hhi. destruct FAC_ok as [Vf Ff].
+  pose proof (rnd_bound x Hhi) as HP.
+  generalize (Bfma_correct prec emax Hprec Hmax mode_NE d FAC (Bopp p) Fd Ff ltac:(rewrite is_finite_Bopp; exact Fp)).
+  cbv zeta. rewrite fexp_eq, Vf, B2R_Bopp, Vp. simpl round_mode. fold x.
+  replace (x + - rnd x) with (- (rnd x - x)) by ring.
+  assert (Hfmt : generic_format radix2 fx (rnd x - x)).
+  { unfold x. rewrite <- Vf. apply mult_error_FLT; try typeclasses eauto.
+    - apply generic_format_B2R.
+    - apply generic_format_B2R.
+    - intros _. rewrite Vf. fold x. apply Rle_trans with (2 := Hlo).
+      apply Rle_trans with (bpow radix2 (-2)); [apply bpow_le; lia|]. simpl bpow. lra. }
+  rewrite round_generic by (try typeclasses eauto; now apply generic_format_opp).
+  rewrite Rlt_bool_true.
+  - intros [A [B _]]. split; [rewrite A; ring|exact B].
+  - apply big5. rewrite Rabs_Ropp. apply Rle_trans with (Rabs (rnd x) + Rabs x); [|lra].
+    replace (rnd x - x) with (rnd x + - x) by ring. eapply Rle_trans; [apply Rabs_triang|]. rewrite Rabs_Ropp. lra.
+Qed.
+
+Theorem stored_nearest (d : f64) : is_finite d = true -> Rabs (B2R d * 10000000) <= 2147483647 ->
   Rabs (IZR (stored_of_deg d) - B2R d * 10000000) <= / 2 /\ (-2147483647 <= stored_of_deg d <= 2147483647)%Z.
 Proof.
-  intros Hf Hx Hnt. set (x := B2R d * 10000000) in *. destruct FAC_ok as [Vf Ff].
-  (* the rounded product is bounded like the exact one *)
-  assert (Hp : Rabs (rnd x) <= 2147483647).
-  { assert (E1 : rnd (IZR (-2147483647)) = IZR (-2147483647)) by (apply round_generic; [typeclasses eauto|apply fmt_Z; lia]).
-    assert (E2 : rnd (IZR 2147483647) = IZR 2147483647) by (apply round_generic; [typeclasses eauto|apply fmt_Z; lia]).
-    apply Rabs_le. apply Rabs_le_inv in Hx. destruct Hx as [Hx1 Hx2]. split.
-    - apply Rle_trans with (rnd (IZR (-2147483647))); [rewrite E1; change (IZR (-2147483647)) with (-2147483647); lra|].
-      apply round_le; [typeclasses eauto|typeclasses eauto|]. change (IZR (-2147483647)) with (-2147483647). lra.
-    - apply Rle_trans with (rnd (IZR 2147483647)); [|rewrite E2; change (IZR 2147483647) with 2147483647; lra].
-      apply round_le; [typeclasses eauto|typeclasses eauto|]. change (IZR 2147483647) with 2147483647. lra. }
-  unfold stored_of_deg, round_away.
+  intros Hf Hx. set (x := B2R d * 10000000) in *. destruct FAC_ok as [Vf Ff].
+  pose proof (rnd_bound x Hx) as Hp.
+  assert (Hgoal : forall z : Z, Rabs (IZR z - x) <= / 2 -> forall f : f64, is_finite f = true -> B2R f = IZR z ->
+            Rabs (IZR (cast_i32 f) - x) <= / 2 /\ (-2147483647 <= cast_i32 f <= 2147483647)%Z).
+  { intros z Hz f Ff' Vf'. pose proof (range_from_near z x Hz Hx) as Hr.
+    rewrite (cast_of_int f z Ff' Vf' Hr). split; assumption. }
+  unfold stored_of_deg. cbv zeta.
   generalize (Bmult_correct prec emax Hprec Hmax mode_NE d FAC).
   rewrite fexp_eq, Vf. simpl round_mode. fold x.
   rewrite Rlt_bool_true by (apply big; lra).
-  intros [M1 [M2 _]]. rewrite Hf, Ff in M2.
-  set (w := Bmult mode_NE d FAC) in *.
-  destruct (Bnearbyint_correct prec emax Hmax mode_NA w) as [N1 [N3 _]].
-  simpl round_mode in N1. rewrite M1, round_FIX0 in N1.
-  set (n := ZnearestA (rnd x)) in *.
+  intros [M1 [M2 _]]. rewrite Hf, Ff in M2. cbn [andb] in M2.
+  set (p := Bmult mode_NE d FAC) in *.
+  destruct (tie_test p M2 ltac:(rewrite M1; lra)) as [T1 [T2 T3]].
+  rewrite T3, M1. rewrite M1 in T1.
+  set (r := round_away p) in *. set (n := ZnearestA (rnd x)) in *.
   pose proof (Znearest_half (Zle_bool 0) (rnd x)) as Hh. fold n in Hh.
   assert (Hn : (Z.abs n <= 2147483648)%Z).
   { apply le_IZR. rewrite abs_IZR. apply Rabs_le_inv in Hp. apply Rabs_le_inv in Hh.
     apply Rabs_le. change (IZR 2147483648) with 2147483648. split; lra. }
-  (* the integer chosen for the rounded product is also nearest to the exact product *)
-  assert (Hnear : Rabs (IZR n - x) <= / 2).
-  { apply Rabs_le. apply Rabs_le_inv in Hh. split.
-    - (* x <= n + 1/2 *)
-      destruct (Rle_or_lt x (IZR n + / 2)) as [H|H]; [lra|]. exfalso. apply Hnt. unfold near_tie. cbv zeta. fold x. split.
-      + exists n. assert (rnd (IZR n + / 2) <= rnd x) by (apply round_le; [typeclasses eauto|typeclasses eauto|lra]).
-        rewrite round_generic in H0 by (try typeclasses eauto; now apply fmt_half). lra.
-      + assert (rnd (IZR n + / 2) <= rnd x) by (apply round_le; [typeclasses eauto|typeclasses eauto|lra]).
-        rewrite round_generic in H0 by (try typeclasses eauto; now apply fmt_half). lra.
-    - destruct (Rle_or_lt (IZR n - / 2) x) as [H|H]; [lra|]. exfalso. apply Hnt.
-      assert (Hfm : generic_format radix2 fx (IZR n - / 2)).
-      { replace (IZR n - / 2) with (IZR (n - 1) + / 2) by (rewrite minus_IZR; lra).
-        destruct (Z.eq_dec n (-2147483648)) as [->|Hne]; [|apply fmt_half; lia].
-        (* n = -2^31 would put the rounded product below -2147483647.5 *)
-        exfalso. apply Rabs_le_inv in Hp. change (IZR (-2147483648)) with (-2147483648) in Hh. lra. }
-      assert (rnd x <= rnd (IZR n - / 2)) by (apply round_le; [typeclasses eauto|typeclasses eauto|lra]).
-      rewrite (round_generic radix2 fx ZnearestE (IZR n - / 2) Hfm) in H0.
-      split; [exists (n - 1)%Z; rewrite minus_IZR; change (B2R d * 10000000) with x; lra|change (B2R d * 10000000) with x; lra]. }
-  assert (Hrange : (-2147483647 <= n <= 2147483647)%Z).
-  { apply Rabs_le_inv in Hnear. apply Rabs_le_inv in Hx. fold x in Hx. split; apply le_IZR.
-    - change (IZR (-2147483647)) with (-2147483647).
-      destruct (Z_le_gt_dec (-2147483647) n) as [Hz|Hz]; [apply IZR_le in Hz; change (IZR (-2147483647)) with (-2147483647) in Hz; lra|].
-      assert (IZR n <= IZR (-2147483648)) by (apply IZR_le; lia). change (IZR (-2147483648)) with (-2147483648) in H. lra.
-    - change (IZR 2147483647) with 2147483647.
-      destruct (Z_le_gt_dec n 2147483647) as [Hz|Hz]; [apply IZR_le in Hz; change (IZR 2147483647) with 2147483647 in Hz; lra|].
-      assert (IZR 2147483648 <= IZR n) by (apply IZR_le; lia). change (IZR 2147483648) with 2147483648 in H. lra. }
-  assert (Hcast : cast_i32 (Bnearbyint mode_NA w) = n).
-  { apply cast_i32_finite.
-    - rewrite N3. exact M2.
-    - apply eq_IZR. rewrite Btrunc_correct, N1; [|exact Hmax]. apply round_FIX0_int. apply valid_rnd_ZR.
-    - unfold i32_min, i32_max. lia. }
-  rewrite Hcast. split; [exact Hnear|exact Hrange].
+  assert (Hn2 : (-2147483648 < n < 2147483648)%Z).
+  { apply Rabs_le_inv in Hp. apply Rabs_le_inv in Hh. split; apply lt_IZR.
+    - change (IZR (-2147483648)) with (-2147483648). lra.
+    - change (IZR 2147483648) with 2147483648. lra. }
+  destruct (Req_bool_spec (Rabs (IZR n - rnd x)) (/ 2)) as [Htie|Hnt].
+  - (* the rounded product is an exact half: the sign of the exact error decides *)
+    destruct (tie_away (rnd x) Htie) as [Tpos [Tneg Tnz]].
+    change (ZnearestA (rnd x)) with n in Tpos, Tneg.
+    assert (Hlo : / 4 <= Rabs x).
+    { destruct (Rle_or_lt (/ 4) (Rabs x)) as [H|H]; [exact H|]. exfalso.
+      assert (Hq : generic_format radix2 fx (/ 4)).
+      { apply generic_format_FLT. exists (Float radix2 1 (-2)); [unfold F2R; cbn [Fnum Fexp]; simpl bpow; lra|vm_compute; reflexivity|cbn [Fexp]; lia]. }
+      assert (Hq' : generic_format radix2 fx (- / 4)) by now apply generic_format_opp.
+      assert (A : rnd x <= / 4).
+      { rewrite <- (round_generic radix2 fx ZnearestE (/ 4) Hq). apply round_le; [typeclasses eauto|typeclasses eauto|].
+        revert H. unfold Rabs. destruct Rcase_abs; lra. }
+      assert (B : - / 4 <= rnd x).
+      { rewrite <- (round_generic radix2 fx ZnearestE (- / 4) Hq'). apply round_le; [typeclasses eauto|typeclasses eauto|].
+        revert H. unfold Rabs. destruct Rcase_abs; lra. }
+      assert (N0 : n = 0%Z) by (apply Znearest_imp; rewrite Rminus_0_r; apply Rabs_lt; lra).
+      rewrite N0 in Htie. revert Htie. unfold Rabs. destruct Rcase_abs; lra. }
+    destruct (fma_error d p Hf M2 M1 Hlo Hx) as [E1 E2]. fold x in E1.
+    destruct F_zero_ok as [V0 F0].
+    rewrite !Bltb_correct by assumption. rewrite E1, V0, M1.
+    destruct (Rlt_bool_spec (x - rnd x) 0) as [e_neg|e_nn]; destruct (Rlt_bool_spec 0 (rnd x)) as [p_pos|p_np]; cbn [andb].
+    + (* positive half, exact product below it: one down *)
+      specialize (Tpos p_pos).
+      destruct (step_int r n false T2 T1 Hn) as [S1 S2]. cbv zeta in S1, S2.
+      apply (Hgoal (n - 1)%Z); [|exact S2|exact S1].
+      assert (Hn3 : (0 < n)%Z) by (apply lt_IZR; lra).
+      rewrite minus_IZR. apply Rabs_le. split; [lra|].
+      destruct (Rle_or_lt (IZR n - 1 - / 2) x) as [H|H]; [lra|]. exfalso.
+      assert (rnd x <= IZR (n - 2) + / 2) by (apply rnd_le_half; [lia|rewrite minus_IZR; lra]).
+      rewrite minus_IZR in H0. lra.
+    + (* negative half, exact product below it *)
+      assert (p_neg : rnd x < 0) by lra. specialize (Tneg p_neg).
+      rewrite (Rlt_bool_false 0 (x - rnd x)) by lra. cbn [andb].
+      apply (Hgoal n); [|exact T2|exact T1].
+      apply Rabs_le. split; [lra|].
+      destruct (Rle_or_lt (IZR n - / 2) x) as [H|H]; [lra|]. exfalso.
+      assert (rnd x <= IZR (n - 1) + / 2) by (apply rnd_le_half; [lia|rewrite minus_IZR; lra]).
+      rewrite minus_IZR in H0. lra.
+    + (* positive half, exact product at or above it *)
+      specialize (Tpos p_pos).
+      rewrite (Rlt_bool_false (rnd x) 0) by lra. rewrite andb_false_r.
+      apply (Hgoal n); [|exact T2|exact T1].
+      apply Rabs_le. split; [|lra].
+      destruct (Rle_or_lt x (IZR n + / 2)) as [H|H]; [lra|]. exfalso.
+      assert (IZR n + / 2 <= rnd x) by (apply rnd_ge_half; [lia|lra]). lra.
+    + assert (p_neg : rnd x < 0) by lra. specialize (Tneg p_neg).
+      destruct (Rlt_bool_spec 0 (x - rnd x)) as [e_pos|e_zero]; destruct (Rlt_bool_spec (rnd x) 0) as [_|Hc]; try lra; cbn [andb].
+      * (* negative half, exact product above it: one up *)
+        destruct (step_int r n true T2 T1 Hn) as [S1 S2]. cbv zeta in S1, S2.
+        apply (Hgoal (n + 1)%Z); [|exact S2|exact S1].
+        rewrite plus_IZR. apply Rabs_le. split; [|lra].
+        destruct (Rle_or_lt x (IZR n + 1 + / 2)) as [H|H]; [lra|]. exfalso.
+        assert (IZR (n + 1) + / 2 <= rnd x) by (apply rnd_ge_half; [lia|rewrite plus_IZR; lra]).
+        rewrite plus_IZR in H0. lra.
+      * (* the product is exact *)
+        apply (Hgoal n); [|exact T2|exact T1]. apply Rabs_le. lra.
+  - (* not a half: the integer nearest to the rounded product is nearest to the exact product too *)
+    apply (Hgoal n); [|exact T2|exact T1].
+    apply Rabs_le. apply Rabs_le_inv in Hh. split.
+    + destruct (Rle_or_lt x (IZR n + / 2)) as [H|H]; [lra|]. exfalso. apply Hnt.
+      assert (IZR n + / 2 <= rnd x) by (apply rnd_ge_half; [lia|lra]).
+      unfold Rabs. destruct Rcase_abs; lra.
+    + destruct (Rle_or_lt (IZR n - / 2) x) as [H|H]; [lra|]. exfalso. apply Hnt.
+      assert (rnd x <= IZR (n - 1) + / 2) by (apply rnd_le_half; [lia|rewrite minus_IZR; lra]).
+      rewrite minus_IZR in H0. unfold Rabs. destruct Rcase_abs; lra.
 Qed.
